@@ -170,7 +170,8 @@ impl<T> RawTable<T> {
     pub fn insert(&mut self, hash: u64, eq: impl Fn(&T) -> bool, value: T) -> Result<usize, usize> {
         match self.find_or_free(hash, eq) {
             Ok(slot) => {
-                unsafe { self.insert_in_slot(hash, slot, value) };
+                // The key is already present: replace the value in place.
+                *unsafe { self.get_at_slot_mut(slot) } = value;
                 Ok(slot)
             }
             Err(slot) => {
